@@ -111,7 +111,8 @@ fn ensure_error_code_correct(
 ) -> Result<(), ErrorObjectError> {
     match value {
         JValue::Number(number) if number.is_i64() | number.is_u64() => {
-            ensure_error_code_is_error(number.as_i64().unwrap())
+            // a u64 above i64::MAX has no i64 form; it is an integer and it is not zero
+            number.as_i64().map_or(Ok(()), ensure_error_code_is_error)
         }
         _ => Err(ErrorObjectError::ScalarFieldIsWrongType {
             scalar: scalar.clone(),
